@@ -122,10 +122,13 @@ class Ctx:
                 print("KNOWN-FINDING: property=%s %s: %s" % (self.pid, key, detail), flush=True)
             return
         n = len(self.violations)
-        path = os.path.join(VERIF, "build", "replay", "%s-%s-%d.json" % (self.pid, self.tier, n))
-        with open(path, "w") as f:
-            json.dump({"property": self.pid, "key": key, "detail": detail, "seed": self.seed,
-                       "tier": self.tier, "replay": replay_obj}, f, indent=1, default=str)
+        # replay files only for the first 50 violations of a run (the rest are counted): a broken
+        # tree can produce hundreds of thousands
+        path = os.path.join(VERIF, "build", "replay", "%s-%s-%d-%d.json" % (self.pid, self.tier, os.getpid(), min(n, 49)))
+        if n < 50:
+            with open(path, "w") as f:
+                json.dump({"property": self.pid, "key": key, "detail": detail, "seed": self.seed,
+                           "tier": self.tier, "replay": replay_obj}, f, indent=1, default=str)
         self.violations.append((key, detail, path))
         if n < 20:
             print("VIOLATION property=%s replay=%s" % (self.pid, path), flush=True)
@@ -543,6 +546,9 @@ class Ctx:
         # evidence/<id>.json describes runs against /repo only; runs against another checkout (VERIF_REPO:
         # mutation / seeded-change testing) write to build/evidence-alt/ instead
         evdir = os.path.join(VERIF, "evidence") if os.path.realpath(REPO) == "/repo" else os.path.join(VERIF, "build", "evidence-alt")
+        if evdir.endswith("evidence") and not self.pid.startswith("C"):
+            # system-level specifications beyond the listed properties (X01, X02, ...): not part of the interface
+            evdir = os.path.join(VERIF, "evidence-extra")
         os.makedirs(evdir, exist_ok=True)
         with open(os.path.join(evdir, "%s.json" % self.pid), "w") as f:
             json.dump(ev, f, indent=1, default=str)
